@@ -21,7 +21,7 @@ strict assertion `n_intersections < len(points)` afterwards, the `norm > EPSILON
 
 Parameters (not modelled, contract stated where used): `np.linalg.pinv` (`barycentric_transforms`:
 the rows `X1`, `X2` are inputs here) and `np.linalg.solve` (`compute_contact_force`: the solver is
-an argument).  `np.argsort` is modelled by a stable sort (numpy's sort of ≤ 16 keys is an
+an argument).  `np.argsort` is modelled by a stable insertion sort (numpy's sort of ≤ 16 keys is an
 insertion sort; the order among *equal* angles is otherwise unspecified and no theorem uses it).
 -/
 import D3.Model.Vec
@@ -257,13 +257,23 @@ variable [HasAtan2 α]
 
 def sumList (l : List α) : α := l.foldl (· + ·) 0
 
+/-- stable insertion: behind every entry whose key is not greater (a NaN key goes to the end,
+like in numpy) -/
+def insertKeyed (x : α × V2 α) : List (α × V2 α) → List (α × V2 α)
+  | [] => [x]
+  | y :: ys => if x.1 < y.1 then x :: y :: ys else y :: insertKeyed x ys
+
+/-- `np.argsort` of at most 16 keys is an insertion sort -/
+def sortKeyed (l : List (α × V2 α)) : List (α × V2 α) :=
+  l.foldl (fun acc x => insertKeyed x acc) []
+
 /-- `order_points`: sort by `arctan2` around the mean (stable) -/
 def orderPoints (pts : List (V2 α)) : List (V2 α) :=
   let n : α := ofNatS pts.length
   let cx := sumList (pts.map (·.x)) / n
   let cy := sumList (pts.map (·.y)) / n
   let keyed := pts.map fun p => (atan2 (p.y - cy) (p.x - cx), p)
-  (keyed.mergeSort fun a b => decide (a.1 ≤ b.1)).map (·.2)
+  (sortKeyed keyed).map (·.2)
 
 end
 
